@@ -138,7 +138,11 @@ def check_trotter(ctx):
     loops = [l for l in body_walk(fi.node) if isinstance(l, ast.For) and any(x is call for x in ast.walk(l))]
     loops.sort(key=lambda l: l.lineno)
     ok_nest = len(loops) == 2 and norm(loops[0].iter) == "range(n_steps)" and norm(loops[1].iter) == "hamiltonian.terms" and count_reversals(loops[1].iter) == 0
-    ctx.check(ok_nest, R2, fi.key + ":loops", "for step in range(n_steps): for term in hamiltonian.terms", f"loop nest is {[short(l.iter) for l in loops]}: not steps (outer) over the Hamiltonian's terms in listed order (inner)", where)
+    if len(loops) != 2:
+        # not a nest of two `for` statements around the call (a comprehension, a helper, itertools.product ...): construct lost
+        ctx.undecided(R2, fi.key + ":loops", f"expected two nested for-loops around time_evolution_for_term, found {[short(l.iter) for l in loops]}", where)
+    else:
+      ctx.check(ok_nest, R2, fi.key + ":loops", "for step in range(n_steps): for term in hamiltonian.terms", f"loop nest is {[short(l.iter) for l in loops]}: not steps (outer) over the Hamiltonian's terms in listed order (inner)", where)
     # the Hamiltonian whose terms are listed is the caller's, as given: a re-bound parameter (simplified, sorted, filtered ...)
     # has other terms, or the same terms in another order, than the operator the property speaks about
     p0 = positional_params(fi.node)[0]
@@ -149,7 +153,10 @@ def check_trotter(ctx):
     got = poly(targ, _resolver(d)) if targ is not None else None
     ctx.check(poly_eq(got, want), R2, fi.key + ":step-time", "each term evolves for time/n_steps", f"per-step time is {short(targ)} = {show(got)}, not time/n_steps", where)
     t0 = arg_or_kw(call, 0, "term")
-    ctx.check(len(loops) == 2 and isinstance(t0, ast.Name) and norm(loops[1].target) == t0.id, R2, fi.key + ":term-arg", "the loop's term is evolved", f"time_evolution_for_term receives {short(t0)} rather than the current term", where)
+    if len(loops) != 2:
+        ctx.undecided(R2, fi.key + ":term-arg", "no loop over the terms to compare the argument with", where)
+    else:
+      ctx.check(len(loops) == 2 and isinstance(t0, ast.Name) and norm(loops[1].target) == t0.id, R2, fi.key + ":term-arg", "the loop's term is evolved", f"time_evolution_for_term receives {short(t0)} rather than the current term", where)
     # accumulation on the right
     from ..common import stmt_of
 
@@ -379,7 +386,10 @@ def check_derivatives(ctx):
         ok = poly_eq(poly(same), shifted) and poly_eq(poly(other), t_over_n)
         idx = {norm(targ.test.left), norm(targ.test.comparators[0])}
         ok = ok and idx == {"i", "j"}
-    ctx.check(ok, R4, fi.key + ":term-time", "(time+shift)/n_steps for the differentiated term, time/n_steps for the others", detail, where)
+    if not isinstance(targ, ast.IfExp):
+        ctx.undecided(R4, fi.key + ":term-time", f"the time argument {short(targ)} is not a conditional expression choosing between the shifted and the plain step", where)
+    else:
+        ctx.check(ok, R4, fi.key + ":term-time", "(time+shift)/n_steps for the differentiated term, time/n_steps for the others", detail, where)
     t0 = arg_or_kw(c, 0, "term")
     inner = [l for l in body_walk(fi.node) if isinstance(l, ast.For) and any(x is c for x in ast.walk(l))]
     inner.sort(key=lambda l: -l.lineno)
@@ -400,7 +410,10 @@ def check_derivatives(ctx):
             ctx.check(len(set(srcs.values())) == 1, R4, fi.key + ":same-listing", "both compared positions enumerate the same listing of terms", f"the positions compared in `{short(targ.test)}` enumerate different listings ({', '.join(f'{k} over {v}' for k, v in sorted(srcs.items()))}): position i of one is not position i of the other, so the shift lands on the wrong term's step and its factor is paired with another term's circuit", where)
         else:
             ctx.undecided(R4, fi.key + ":same-listing", f"cannot find the two enumerations providing {sorted(idxn)}", where)
-    ctx.check(ok_t, R4, fi.key + ":all-terms-in-order", "every term of the Hamiltonian, in order, in each derivative circuit", "a derivative circuit does not contain every term of the Hamiltonian in listed order", where)
+    if not inner or not isinstance(inner[0].target, ast.Tuple):
+        ctx.undecided(R4, fi.key + ":all-terms-in-order", "cannot find the inner `for j, term in enumerate(...)` loop around the per-term call", where)
+    else:
+      ctx.check(ok_t, R4, fi.key + ":all-terms-in-order", "every term of the Hamiltonian, in order, in each derivative circuit", "a derivative circuit does not contain every term of the Hamiltonian in listed order", where)
     # r, shift, output factor
     want_r = p_mul(p_atom("term_1.coefficient.real"), p_inv(p_atom("n_steps")))
     got_r = poly(ast.Name(id="r", ctx=ast.Load()), res)
@@ -422,7 +435,10 @@ def check_derivatives(ctx):
     okg = len(gcalls) == 1 and [norm(a) for a in gcalls[0].args] == ["repeated_circuit", "different_circuit", "n_steps", "position"]
     ctx.check(okg, R4, fi.key + ":splice-call", "_generate_circuit_sequence(repeated, shifted, n_steps, position)", f"spliced sequence is built by {short(gcalls[0]) if gcalls else None}", fi)
     pos_loops = [l for l in body_walk(fi.node) if isinstance(l, ast.For) and norm(l.target) == "position"]
-    ctx.check(len(pos_loops) == 1 and norm(pos_loops[0].iter) == "range(n_steps)", R4, fi.key + ":positions", "one spliced sequence per position 0..n_steps-1", "the shifted step is not placed at every position 0..n_steps-1", fi)
+    if not pos_loops:
+        ctx.undecided(R4, fi.key + ":positions", "cannot find the loop over the positions of the shifted step", fi)
+    else:
+      ctx.check(len(pos_loops) == 1 and norm(pos_loops[0].iter) == "range(n_steps)", R4, fi.key + ":positions", "one spliced sequence per position 0..n_steps-1", "the shifted step is not placed at every position 0..n_steps-1", fi)
     # the generator: position guard and selection
     ok_sel = False
     for n in body_walk(gen.node):
@@ -430,7 +446,11 @@ def check_derivatives(ctx):
             rep_e, dif_e = (n.body, n.orelse) if isinstance(n.test.ops[0], ast.NotEq) else (n.orelse, n.body)
             ok_sel = norm(rep_e) == "repeated_circuit" and norm(dif_e) == "different_circuit"
     rng = [g for n in body_walk(gen.node) if isinstance(n, (ast.ListComp, ast.GeneratorExp)) for g in n.generators if norm(g.iter) == "range(length)"]
-    ctx.check(ok_sel and bool(rng), R4, gen.key, "different circuit exactly at `position`, repeated elsewhere, length copies in order", "the spliced sequence does not put the shifted step at exactly the requested position among `length` steps", gen)
+    sel_seen = any(isinstance(n, ast.IfExp) and isinstance(n.test, ast.Compare) and "position" in norm(n.test) for n in body_walk(gen.node))
+    if not sel_seen:
+        ctx.undecided(R4, gen.key, "cannot find the conditional expression that selects the shifted step by position", gen)
+    else:
+      ctx.check(ok_sel and bool(rng), R4, gen.key, "different circuit exactly at `position`, repeated elsewhere, length copies in order", "the spliced sequence does not put the shifted step at exactly the requested position among `length` steps", gen)
 
 
 def _num(e):
